@@ -295,27 +295,7 @@ func runC17(c *Ctx) {
 			ok = g
 		}
 		c.Check("C17.R3", funcKey(fn)+":reset-retry-guard", fn.Pos(), ok, "a reset retries only when !downstreamResponseStarted", "an upstream reset can trigger a retry although the response already started")
-		// global timeout never retried
-		gt := false
-		if len(retry) == 1 {
-			for _, gd := range guardsAt(retry[0].Instr.Block()) {
-				if bo, ok := gd.Cond.(*ssa.BinOp); ok && bo.Op == token.NEQ && gd.True {
-					if k, ok := bo.Y.(*ssa.Const); ok {
-						if s, ok := constString(k); ok && s == "UpstreamGlobalTimeout" {
-							gt = true
-						}
-					}
-				}
-				if bo, ok := gd.Cond.(*ssa.BinOp); ok && bo.Op == token.EQL && !gd.True {
-					if k, ok := bo.Y.(*ssa.Const); ok {
-						if s, ok := constString(k); ok && s == "UpstreamGlobalTimeout" {
-							gt = true
-						}
-					}
-				}
-			}
-		}
-		c.Check("C17.R3", funcKey(fn)+":global-timeout-final", fn.Pos(), gt, "the global timeout is never retried", "a global timeout can be retried: the request would outlive its configured timeout")
+		globalTimeoutFinal(c, pp, "C17.R3")
 	}
 	// doRetry only from the Retry phase of receive
 	if dr := c.M(pp, "downStream", "doRetry"); dr != nil {
